@@ -240,6 +240,22 @@ def h_matrix_entry(E, credit, inp):
     return str(r['ok'])
 
 
+TINY_CREDITS = [(1e-200, 1e-200), (5e-324, 0.5), (1e-300, 'proportional'), (1e-320, 1e-10), (2.5e-162, 2e-162), (1.0, 5e-324), (1e-155, 1e-155)]
+
+
+def h_tiny_credit(E, idx):
+    """concrete companion (doubles, not reals): credits whose PRODUCT underflows to 0.0 - the entry is then simply wrong (ok False), and a product that
+    survives as a subnormal is 'partial'"""
+    from mitxgraders import MatrixGrader
+    answer_credit, entry_credit = TINY_CREDITS[idx]
+    g = MatrixGrader(answers={'expect': '[1,3]', 'grade_decimal': answer_credit}, entry_partial_credit=entry_credit, max_array_dim=1)
+    for inp in ('[5,3]', '[1,3]', '[5,5]'):
+        r = g(None, inp)
+        s_ok, c_ok = wellformed(r)
+        E.check('wellformed', bool(s_ok) and bool(c_ok))
+    return 'ok'
+
+
 def h_matrix(E, inp):
     import numpy as np
     from mitxgraders import MatrixGrader
@@ -338,6 +354,8 @@ def harnesses(tier):
     for credit in (0, 1, 0.5, 'proportional'):
         for inp in ('right', 'one-entry-wrong', 'all-wrong'):
             add(h_matrix_entry, 'matrix_entry', dict(credit=credit, inp=inp), 'symbolic 2-vector sample')
+    for i in range(len(TINY_CREDITS)):
+        add(h_tiny_credit, 'tiny_credit', dict(i=i), 'answer credit %r x entry credit %r' % TINY_CREDITS[i], validate=False)
     for inp in ('right', 'wrong', 'scaled'):
         add(h_matrix, 'matrix', dict(inp=inp), 'symbolic 2-vector samples')
     for inp in ('right', 'shifted', 'wrong'):
